@@ -233,6 +233,7 @@ type ctl struct {
 	inErrRunning             map[int64]bool
 	feedPending              int
 	lastGrant, lastPoint     string
+	freeConds                bool // (unused: conditions on tracked state mean nothing once the points are off)
 	fixed                    bool // variant=stopq: scanInput and inputLoop also select on stopQ (fixes/C06-shutdown-selects-stopq.patch)
 }
 
@@ -502,7 +503,7 @@ func (c *ctl) park(id string, cond func() bool, stall bool) {
 // freeWait: after the switch to free running there is no scheduler; a condition is then awaited by polling the
 // tracked state (which no longer changes) — it only matters for pause flags, which are plain atomics.
 func (c *ctl) freeWait(cond func() bool) {
-	if cond == nil {
+	if cond == nil || !c.freeConds {
 		return
 	}
 	for i := 0; i < 20000; i++ {
@@ -719,6 +720,7 @@ type scenario struct {
 	stopAfter int
 	consDone  atomic.Bool
 	feedDone  atomic.Bool
+	errCutoff int // feeder step from which on injected chunks are not owed (a read error overtook them); -1 = none
 	chanMode  bool
 	ch        chan tcell.Event
 	userQuit  chan struct{}
@@ -830,8 +832,12 @@ func (sc *scenario) feeder(steps []string, second bool) {
 		}
 	}
 	c.mu.Unlock()
+	var injected []int
 	for i, st := range steps {
 		c.park("feed-step", nil, false)
+		if strings.HasPrefix(st, "c:") {
+			injected = append(injected, i)
+		}
 		switch {
 		case strings.HasPrefix(st, "c:"):
 			b, _ := hex.DecodeString(st[2:])
@@ -853,6 +859,17 @@ func (sc *scenario) feeder(steps []string, second bool) {
 		case st == "e":
 			c.env("readerr")
 			sc.readErrInjected = true
+			// the tty reports a pending fault before data that is still unread (as a failing device would): the
+			// chunks not yet read at this moment are not owed to the application
+			sc.tty.mu.Lock()
+			k := len(sc.tty.chunks)
+			sc.tty.mu.Unlock()
+			if !second && sc.errCutoff < 0 {
+				sc.errCutoff = i
+				if k > 0 && k <= len(injected) {
+					sc.errCutoff = injected[len(injected)-k]
+				}
+			}
 			sc.tty.fail()
 		case strings.HasPrefix(st, "z:"):
 			wh := strings.Split(st[2:], "x")
@@ -872,6 +889,9 @@ func (sc *scenario) pauseCheck(n int) {
 	}
 	if sc.paused.Load() {
 		sc.c.park("cons-paused", func() bool { return !sc.paused.Load() }, false)
+		for i := 0; sc.paused.Load() && i < 60000; i++ { // free running: wait for the director's unpause (an atomic)
+			time.Sleep(time.Millisecond)
+		}
 	}
 }
 
@@ -1127,6 +1147,7 @@ func runCase(line string) output {
 	}
 	sc.in2 = split(hdr["feed2"])
 	sc.exp2 = split(hdr["exp2"])
+	sc.errCutoff = -1
 	sc.stopAfter = -1
 	if v, ok := hdr["stop"]; ok {
 		sc.stopAfter = atoi(v)
